@@ -1834,9 +1834,12 @@ theorem walk1_sim2 {P : Prims} (hP : PushOne P) : ∀ (d : Desc) (a a' : Abs), a
       · rw [if_pos c204] at ha
         exact op204_sim2 hi1 c204 ha h
       · rw [if_neg c204] at ha
-        by_cases had : a.ad = 0
+        by_cases had : a.ad = 0 ∨ id / 1000 = 206
         · rw [if_pos had] at ha
-          exact op_sim2 hP hi1 (fun _ => hi1.stack0 had) hsk ha h
+          refine op_sim2 hP hi1 (fun hb => ?_) hsk ha h
+          rcases had with had | had
+          · exact hi1.stack0 had
+          · unfold BmCode at hb; omega
         · rw [if_neg had] at ha
           split at ha
           · next hc5 =>
